@@ -260,6 +260,9 @@ func (w *wire) invokeGRPC(ri rpcInfo, msgs []proto.Message, poke func()) (o outc
 		}
 		err := w.conn.Invoke(ctx, ri.Full, req, resp)
 		o.Returned, o.OK, o.Code = true, err == nil, errCode(err)
+		if err == nil {
+			o.Resp = resp
+		}
 		if err != nil {
 			o.ErrText = err.Error()
 			if ctx.Err() != nil && status.Code(err) == codes.DeadlineExceeded {
